@@ -25,19 +25,22 @@ def gen_radii(rng, n):
     return rs
 
 
-def gen_cluster(rng, n=None, periodic=None, tree=None, line=False):
-    """A cluster/chain of n spheres with many simultaneous overlaps; optional periodic box with images."""
+def gen_cluster(rng, n=None, periodic=None, tree=None, line=False, big=False):
+    """A cluster/chain of n spheres with many simultaneous overlaps; optional periodic box with images.
+    big: many spheres whose radii exceed the tree cells they sit in (stresses the tree-walk pruning radius)."""
     if n is None:
-        n = rng.choice([2, 3, 3, 4, 5, 6, 7, 8, 10, 12])
+        n = rng.choice([2, 3, 3, 4, 5, 6, 7, 8, 10, 12]) if not big else rng.choice([6, 8, 10, 12, 16])
     if periodic is None:
         periodic = rng.random() < 0.4
-    box = rng.choice([8.0, 10.0, 12.5, 16.0])
-    rs = gen_radii(rng, n)
+    box = rng.choice([8.0, 10.0, 12.5, 16.0]) if not big else 8.0
+    rs = gen_radii(rng, n) if not big else [rng.uniform(0.7, 1.6) for _ in range(n)]
     shape = rng.choice(["blob", "chain", "faces"]) if periodic else rng.choice(["blob", "chain"])
+    if big:
+        shape = "blob"
     P = []
     for i in range(n):
         if shape == "blob":
-            s = rng.choice([0.3, 0.8, 1.5])
+            s = rng.choice([0.3, 0.8, 1.5]) if not big else rng.choice([1.0, 1.8])
             p = [rng.gauss(0, s) for _ in range(3)]
         elif shape == "chain":
             p = [0.45 * i - 0.2 * n + rng.uniform(-0.1, 0.1), rng.uniform(-0.2, 0.2), rng.uniform(-0.2, 0.2)]
